@@ -40,6 +40,9 @@ def make_scn(dirs, with_missing_dir, with_top):
             ents.append(mk('DATA', f'{d}/f', 5, MD5=md5('F')))
             if v.bool(f'{d}_stray'):
                 fs.add_file(f'{d}/s', size=1, digest='s')
+            # a second stray whose name is that of the top-level Manifest
+            if d == dirs[0] and v.bool(f'{d}_stray_manifest'):
+                fs.add_file(f'{d}/Manifest', size=1, digest='M')
         if with_top:
             if v.bool('t_present'):
                 fs.add_file('t', size=2, digest='T')
@@ -101,8 +104,9 @@ def judge_keep(c, out):
 def conditions(tier):
     cs = []
     if tier == 'quick':
-        plans = [('k2', ('d1', 'd2'), True, False, [('d1_f', range(5)), ('vp', (0,))]),
-                 ('k2s', ('d1', 'd2'), False, True, [('vp', (1,))]),
+        plans = [('k2', ('d1', 'd2'), True, False, [('d1_f', range(5)), ('vp', (0,)),
+                                                    ('d1_stray_manifest', (False, True))]),
+                 ('k2s', ('d1', 'd2'), False, True, [('vp', (1,)), ('d1_f', range(5))]),
                  ('k1t', ('d1',), True, True, [('vp', (0,))])]
     else:
         plans = [('k2', ('d1', 'd2'), True, True,
@@ -122,7 +126,7 @@ def conditions(tier):
                       'symbolic position k); calls must equal the oracle\'s offending set, '
                       'each once; return value False iff some call returned False',
                 bounds=f'directories {dirs}, each: listed file with discrepancy in {DISC} '
-                       'and optional stray; '
+                       'and optional stray; optional stray named Manifest in the first; '
                        + ('top-level file present/listed bits; ' if wt else '')
                        + ('absent-or-present directory dm with two listed files; '
                           if wm else '')
